@@ -8,6 +8,7 @@ import (
 	"encoding/json"
 	"errors"
 	"fmt"
+	"html/template"
 	"math"
 	"reflect"
 	"unicode/utf8"
@@ -205,6 +206,26 @@ func Materialise(it Item) *Live {
 		l.V = it.N
 	case "u64":
 		l.V = uint64(it.N) // negative N wraps to the top of the range
+	case "tstr":
+		// the typed strings of html/template and friends: to a cell they are "anything else", their text is their %v
+		switch ((it.N % 8) + 8) % 8 {
+		case 0:
+			l.V = template.HTML(it.S)
+		case 1:
+			l.V = template.JS(it.S)
+		case 2:
+			l.V = template.CSS(it.S)
+		case 3:
+			l.V = template.URL(it.S)
+		case 4:
+			l.V = template.HTMLAttr(it.S)
+		case 5:
+			l.V = template.JSStr(it.S)
+		case 6:
+			l.V = template.Srcset(it.S)
+		default:
+			l.V = json.RawMessage(it.S) // a []byte underneath: prints as a list of numbers
+		}
 	case "i8":
 		l.V = int8(it.N)
 	case "u16":
